@@ -44,6 +44,9 @@ def is_dim(a, axis):
         return True
     if a[0] == 'field' and a[2] == str(axis) and a[1][0] == 'call' and a[1][1].startswith('std::convert::From::from') and 'TileSize' in a[1][1]:
         return True
+    # the accessor seen through (inlined): <tileset>.tile_size.width
+    if a[0] == 'field' and a[2] == nm and a[1][0] == 'field' and a[1][2] == 'tile_size':
+        return True
     return False
 
 
